@@ -55,10 +55,11 @@ func (in *Interp) floatArith(op token.Token, x, y FloatV) Value {
 		case token.MUL:
 			return FloatV{kind: fConst, c: x.c * y.c}
 		case token.QUO:
-			if !(isIntegral(x.c) && isIntegral(y.c)) || y.c == 0 || math.Mod(x.c, y.c) == 0 {
-				return FloatV{kind: fConst, c: x.c / y.c}
+			r := FloatV{kind: fConst, c: x.c / y.c}
+			if isIntegral(x.c) && isIntegral(y.c) && y.c != 0 {
+				r.qa, r.qb = int64(x.c), int64(y.c)
 			}
-			// integral operands with a non-integral quotient: keep the exact rational (below)
+			return r
 		}
 	}
 	switch op {
@@ -87,10 +88,9 @@ func (in *Interp) floatArith(op token.Token, x, y FloatV) Value {
 				}
 				return FloatV{kind: fConst, c: math.Inf(-1)}
 			}
-			if a.IsConst() && b.IsConst() && a.SVal()%b.SVal() == 0 {
-				return FloatV{kind: fConst, c: float64(a.SVal() / b.SVal())}
+			if a.IsConst() && b.IsConst() {
+				return FloatV{kind: fConst, c: float64(a.SVal()) / float64(b.SVal()), qa: a.SVal(), qb: b.SVal()}
 			}
-			// non-integral quotients stay exact rationals (also when both operands are concrete)
 			return FloatV{kind: fQuot, a: a, b: b}
 		}
 	case token.ADD, token.SUB:
@@ -256,6 +256,9 @@ func (in *Interp) floatCmp(op string, x, y FloatV) *Term {
 		case fConst:
 			if isIntegral(f.c) {
 				return frac{ts.BV(uint64(int64(f.c)), 64), ts.BV(1, 64)}, true
+			}
+			if f.qb != 0 {
+				return frac{ts.BV(uint64(f.qa), 64), ts.BV(uint64(f.qb), 64)}, true
 			}
 			// a finite double is a dyadic rational m/2^k
 			if !math.IsInf(f.c, 0) && !math.IsNaN(f.c) && math.Abs(f.c) < (1<<20) {
